@@ -387,6 +387,32 @@ func h1Exchange(conn net.Conn, reqs []e2eReq) []e2eResp {
 
 // h2Exchange plays a frame script (grammar of s_h2srv.go; an H token's 4th field is the request index)
 // over a raw HTTP/2 connection and collects the responses per stream.
+// tlsInadequateForH2: the negotiated TLS parameters are ones RFC 7540 9.2 lets an HTTP/2 server refuse (and this server
+// does, with GOAWAY(INADEQUATE_SECURITY) and a close): TLS below 1.2, or a TLS 1.2 suite outside ephemeral key exchange
+// + AEAD. (Of the suites Go's TLS server can select, exactly these six are acceptable to HTTP/2.)
+func tlsInadequateForH2(conn net.Conn) bool {
+	var ver, suite uint16
+	switch c := conn.(type) {
+	case *tls.Conn:
+		ver, suite = c.ConnectionState().Version, c.ConnectionState().CipherSuite
+	case *utls.UConn:
+		ver, suite = c.ConnectionState().Version, c.ConnectionState().CipherSuite
+	default:
+		return false
+	}
+	if ver >= tls.VersionTLS13 {
+		return false
+	}
+	if ver < tls.VersionTLS12 {
+		return true
+	}
+	switch suite {
+	case 0xc02b, 0xc02c, 0xc02f, 0xc030, 0xcca8, 0xcca9:
+		return false
+	}
+	return true
+}
+
 func h2Exchange(conn net.Conn, toks []string, reqs []e2eReq) (map[uint32]*e2eResp, error) {
 	if _, err := io.WriteString(conn, http2.ClientPreface); err != nil {
 		return nil, err
